@@ -39,6 +39,9 @@ def gen(tier):
     out.append({'cin': 3, 'size': 6, 'stages': [pre, block(['c3', 'c1', 'id']), {'op': 'conv', 'cout': 4, 'k': 1, 'alias': 's1_pw'},
                                                  {'op': 'conv', 'cout': 3, 'alias': 's10'}], 'head': 'flatlin'})
     out.append({'cin': 3, 'size': 6, 'stages': [pre, block(['seq', 'c5'], twice=True), {'op': 'conv', 'cout': 4, 'k': 1, 'alias': 's1x'}], 'head': 'gaplin'})
+    # sampling options and non-uniform coefficients set by the USER on the blocks (hard selection, Gumbel)
+    out.append({'cin': 3, 'size': 6, 'alpha_ramp': True, 'stages': [pre, block(['c3', 'c1', 'id'], hard=True)], 'head': 'flatlin'})
+    out.append({'cin': 3, 'size': 6, 'alpha_ramp': True, 'stages': [pre, block(['seq', 'c5'], hard=True, twice=True), block(['c1', 'c3'])], 'head': 'gaplin'})
     # down-sampling blocks: the layers of one branch work at different resolutions
     out.append({'cin': 3, 'size': 6, 'stages': [pre, block(['c3s2', 'poolconv', 'convpool'])], 'head': 'flatlin'})
     out.append({'cin': 3, 'size': 6, 'stages': [pre, block(['bneck', 'convpool']), block(['c3', 'c1'])], 'head': 'gaplin'})
